@@ -620,9 +620,9 @@ theorem _parse_full_marker_eq_model (s : PyTok.St) (m : Mk.St) (h : TokRel s m) 
     rw [hp] at hA
     obtain ⟨s', e, h'⟩ := hA
     rw [TM.run_bind_ok e]
-    show _ = match Mk.St.check .end_ m' with
-      | some _ => _
-      | none => _
+    have hb : ∀ (x : List Mk.M × Mk.St) (g : List Mk.M × Mk.St → Mk.Res (List Mk.M)), (Except.ok x >>= g) = g x :=
+      fun _ _ => rfl
+    simp only [hb, charTS_check]
     cases he : Mk.St.check .end_ m' with
     | none => rw [TM.run_bind_err (expect_none h' rule_end he)]; rfl
     | some q =>
@@ -635,10 +635,8 @@ theorem parse_marker_eq_model (src : Str) (hfuel : Mk.parse src ≠ .error .fuel
       | .ok l => .ok (ofML l)
       | .error _ => .error "ParserSyntaxError" := by
   have := _parse_full_marker_eq_model (start src) ⟨none, src⟩ (start_rel src) _ (fuelFor_le src) hfuel
-  unfold Gen.PySrc.parse_marker
-  show (PyTok.run Gen.PySrc._parse_full_marker (start src) >>= fun r => pure r) = _
-  rw [this]
-  unfold Mk.parse
-  cases Mk.parseFull Mk.charTS (Mk.fuelFor src.length) ⟨none, src⟩ <;> rfl
+  unfold Gen.PySrc.parse_marker Mk.parse
+  simp only [PyTok.new, pure_ok, ok_bind]
+  exact this
 
 end Src
